@@ -120,3 +120,51 @@ Theorem C14_parse_well_defined :
   forall g f1 f2 text, parse g f1 text <> PFuel -> parse g f2 text <> PFuel -> parse g f1 text = parse g f2 text.
 Proof. exact parse_fuel_irrelevant. Qed.
 Print Assumptions C14_parse_well_defined.
+
+(* ---------- every accepted text ----------
+   Derive.run_derives (any grammar): whatever the PEG interpreter returns outside quiet mode is
+   a derivation -- the children of every node are what the body of its rule produces.
+   FrontAll (the regenerated grammar): on every derivation of `item` the walker and the
+   constructors return Ok or panic at a recorded site (finding F11: a malformed hexadecimal enum
+   value, a duplicate constant, a field or arm the constructors do not accept); the
+   `unreachable!` / `unwrap` sites that rely on the grammar's shapes (node.rs ident_str,
+   union.rs parse, enumeration.rs new, typedef.rs new, the walker's catch-all) are never
+   reached.  Together with C14_reject and C14_emitters_panic_site: for EVERY text, whatever the
+   fuel (as long as it does not run out), the model of Ast::new returns Ok, Err or one of
+   these panics. *)
+From XdrProofs Require Import FrontAll.
+
+Theorem C14_every_accepted_text :
+  forall text fuel t rest,
+  parse xdr_grammar fuel text = POk [t] rest ->
+  only_panics ["enumeration.rs:from"; "constants.rs:new"; "structure.rs:new"; "union.rs:new"] (ast_new t).
+Proof. exact front_all. Qed.
+Print Assumptions C14_every_accepted_text.
+
+Theorem C14_parser_returns_one_tree :
+  forall text fuel ts rest, parse xdr_grammar fuel text = POk ts rest -> exists t, ts = [t].
+Proof. exact parse_one_tree. Qed.
+Print Assumptions C14_parser_returns_one_tree.
+
+(* the whole front end of the model on any text *)
+Theorem C14_every_text :
+  forall text,
+  parse xdr_grammar (parse_fuel text) text <> PFuel ->
+  match model_ast text with
+  | EPanic w => In w ["enumeration.rs:from"; "constants.rs:new"; "structure.rs:new"; "union.rs:new"]
+  | _ => True
+  end.
+Proof.
+  intros text Hf. unfold model_ast.
+  destruct (parse xdr_grammar (parse_fuel text) text) as [| |ts rest] eqn:E; [exact I|congruence|].
+  destruct (parse_one_tree _ _ _ _ E) as [t ->].
+  pose proof (front_all _ _ _ _ E) as H. destruct (ast_new t); [exact I|exact I|]. inversion H; assumption.
+Qed.
+Print Assumptions C14_every_text.
+
+(* non-vacuity: a text outside the supported subset that the grammar accepts and a constructor
+   refuses -- the panic is one of the recorded ones *)
+Example C14_every_text_witness :
+  model_ast "union u switch (int k) { case 1: int xs<>; };" = EPanic "union.rs:new" /\
+  model_ast "struct s { int int32_t; };" = EPanic "structure.rs:new".
+Proof. split; vm_compute; reflexivity. Qed.
